@@ -70,8 +70,10 @@ func (c *sorterClass_[V]) DefaultRanker() RankingFunction[V] {
 // Constructors
 
 func (c *sorterClass_[V]) Make() SorterLike[V] {
+	// Each sorter gets its own default collator since a collator keeps track of
+	// its traversal depth and must not be shared between goroutines.
 	return &sorter_[V]{
-		ranker_: c.defaultRanker_,
+		ranker_: Collator[V]().Make().RankValues,
 	}
 }
 
